@@ -40,6 +40,13 @@ def skeleton(kind):
         d.add_child(k)
         k.add_child(Node("organizationName", content="o"))
         return d
+    if kind == "inline":
+        # distribution/inline: in the EML schema inline is xs:any, in this library it is an ordinary text leaf - what hangs
+        # below it is NOT metadata content
+        d = Node("distribution")
+        i = Node("inline", content="a,b\n1,2")
+        d.add_child(i)
+        return d
     if kind == "metadataRoot":
         # a free-standing additionalMetadata payload: the tree handed to prune is rooted at the metadata element itself
         md = Node("metadata")
@@ -86,7 +93,7 @@ def plant(n, kind, rnd, t):
 def _plant(n, kind, rnd, t):
     if kind == "unknown-child":
         # not a known element - also look-alikes of known names (re-cased, padded, qualified): names are compared exactly
-        j = Node(rnd.choice(["zzUnknown", "zzUnknown", "Title", "title ", "{u}title", "eml:dataset", "PARA", "creators"]))
+        j = Node(rnd.choice(["zzUnknown", "zzUnknown", "Title", "title ", "{u}title", "eml:dataset", "PARA", "creators", "data", "meta", "metadat", "Metadata", "inlin"]))
         j.add_child(Node("title", content="inner"))
         n.add_child(j, index=rnd.randint(0, len(n.children)))
     elif kind == "unknown-leaf":
@@ -206,7 +213,7 @@ def run(rep, tier, seed):
     from harness import gen_tables
     gen_tables.write_rule_table(wd)
     cfgp = os.path.join(wd, "plans.cfg")
-    open(cfgp, "w").write('SPECIFICATION Spec\nCONSTANTS\n  Which = "prune"\n  Skeletons = {"access", "dataset", "metadata", "metadataRoot", "eml", "relatedProject"}\n'
+    open(cfgp, "w").write('SPECIFICATION Spec\nCONSTANTS\n  Which = "prune"\n  Skeletons = {"access", "dataset", "metadata", "metadataRoot", "inline", "eml", "relatedProject"}\n'
                           f'  MaxSites = 6\n  MaxPlant = {1 if tier == "quick" else 2}\n  MaxItems = 1\nINVARIANT Log\n')
     r = run_tlc("MC_Plans", cfg=cfgp, timeout=600)
     if not r.ok:
@@ -220,7 +227,7 @@ def run(rep, tier, seed):
         for _ in range(500):
             a = [rnd.randint(1, 6), rnd.choice(kinds)]
             b = [rnd.randint(1, 6), rnd.choice(kinds)]
-            plans.append({"skeleton": rnd.choice(["access", "dataset", "metadata", "metadataRoot", "eml", "relatedProject"]), "strict": rnd.random() < 0.5, "plant": [a, b]})
+            plans.append({"skeleton": rnd.choice(["access", "dataset", "metadata", "metadataRoot", "inline", "eml", "relatedProject"]), "strict": rnd.random() < 0.5, "plant": [a, b]})
     G["plans"] = plans
     evs = [e for chunk in parallel(w_plans, range(len(plans))) for e in chunk]
     nseed = 120 if tier == "quick" else 2500
